@@ -418,4 +418,197 @@ example :
       ([{ uid := 0, handled := false, ret := some .f }, { uid := 1, handled := true, ret := some .t }],
        [{ src := 1, dst := .session, port := 53, proto := 1, payload := .dns "x.test" (some (some 7)) }]) := by decide
 
+/-! ## 4. what the modelled classes do with a payload they accept -/
+
+/-- **A reply is never answered** (so two servers cannot exchange packets without end — the defect repaired in this round):
+whatever the class and its data, a payload that carries a reply triggers no send. -/
+theorem C13_reply_never_answered (d : Data) (canAct : Bool) (now : Nat) (p : Payload) (hp : p.isReply = true) :
+    (d.receive canAct now p).2.2.1 = [] := by
+  cases canAct
+  · rfl
+  · cases p with
+    | junk => simp [Payload.isReply] at hp
+    | portScan => simp [Payload.isReply] at hp
+    | dns name r =>
+      cases r with
+      | none => simp [Payload.isReply] at hp
+      | some o => cases d <;> cases o <;> rfl
+    | ntp r =>
+      cases r with
+      | none => simp [Payload.isReply] at hp
+      | some t => cases d <;> rfl
+
+/-- … and everything a modelled class sends in reaction to a payload is a reply, sent back along the session -/
+theorem C13_sends_are_replies (d : Data) (canAct : Bool) (now : Nat) (p : Payload) :
+    ∀ x ∈ (d.receive canAct now p).2.2.1, x.1 = .session ∧ x.2.isReply = true := by
+  cases canAct
+  · intro x hx; cases hx
+  · intro x hx
+    cases p with
+    | junk => cases d <;> simp [Data.receive] at hx
+    | portScan => cases d <;> simp [Data.receive] at hx
+    | dns name r =>
+      cases r with
+      | none => cases d <;> simp [Data.receive] at hx <;> (subst hx; exact ⟨rfl, rfl⟩)
+      | some o => cases d <;> cases o <;> simp [Data.receive] at hx
+    | ntp r =>
+      cases r with
+      | none => cases d <;> simp [Data.receive] at hx <;> (subst hx; exact ⟨rfl, rfl⟩)
+      | some t => cases d <;> simp [Data.receive] at hx
+
+/-- **DNS server**: a request is answered with exactly what the table holds for the requested name — the registered address,
+or "none" — sent back along the session and written into the packet; the table is untouched; the return value says whether
+an address was found.  A packet that already carries a reply, and any other payload, is refused without effect. -/
+theorem C13_dns_server_receive (tbl : List (String × Nat)) (now : Nat) (p : Payload) :
+    (Data.dnsServer tbl).receive true now p =
+      match p with
+      | .dns name none =>
+        (.dnsServer tbl, Ret.ofBool (dget name tbl).isSome, [(.session, .dns name (some (dget name tbl)))],
+         .dns name (some (dget name tbl)))
+      | _ => (.dnsServer tbl, .f, [], p) := by
+  cases p <;> simp [Data.receive]
+  rename_i name r
+  cases r <;> simp [Data.receive]
+
+/-- `dns_register` then `dns_lookup`: the registered name answers the registered address, every other name answers what it
+answered before; on a server that may not act (not RUNNING / node not ON) registering changes nothing and looking up
+answers none. -/
+theorem C13_dns_register_lookup (nn : NetNode) (u : Nat) (tbl : List (String × Nat)) (name : String) (ip : Nat)
+    (hd : dget u nn.data = some (.dnsServer tbl)) :
+    (nn.n.handles u = true →
+      (nn.dnsRegister u name ip).dnsLookup u name = some ip ∧
+      ∀ other, other ≠ name → (nn.dnsRegister u name ip).dnsLookup u other = nn.dnsLookup u other) ∧
+    (nn.n.handles u = false → nn.dnsRegister u name ip = nn ∧ ∀ x, nn.dnsLookup u x = none) := by
+  constructor
+  · intro hh
+    have hn : (nn.setData u (Data.dnsServer (dset name ip tbl))).n = nn.n := rfl
+    constructor
+    · simp [NetNode.dnsRegister, NetNode.dnsLookup, hd, hh, NetNode.setData, dget_dset]
+    · intro other ho
+      simp [NetNode.dnsRegister, NetNode.dnsLookup, hd, hh, NetNode.setData, dget_dset, Ne.symm ho]
+  · intro hh
+    simp [NetNode.dnsRegister, NetNode.dnsLookup, hd, hh]
+
+/-- **DNS client**: it caches exactly what was answered — a reply carrying an address is stored under the requested name
+(True); a reply without an address, a request, and any other payload leave the cache as it is (False). -/
+theorem C13_dns_client_receive (cache : List (String × Nat)) (srv : Option Nat) (now : Nat) (p : Payload) :
+    (Data.dnsClient cache srv).receive true now p =
+      match p with
+      | .dns name (some (some ip)) => (.dnsClient (dset name ip cache) srv, .t, [], p)
+      | _ => (.dnsClient cache srv, .f, [], p) := by
+  cases p <;> simp [Data.receive]
+  rename_i name r
+  cases r with
+  | none => simp [Data.receive]
+  | some o => cases o <;> simp [Data.receive]
+
+/-- **NTP server**: a request is answered with the clock reading (sent back along the session); a packet that carries a
+reply, and any other payload, is refused.  **NTP client**: a reply sets the time to exactly the reading it carries; a
+packet without a reply (another client's request) is refused — it used to raise. -/
+theorem C13_ntp_receive (now : Nat) (t : Option Nat) (srv : Option Nat) (p : Payload) :
+    (Data.ntpServer.receive true now p =
+      match p with
+      | .ntp none => (.ntpServer, .t, [(.session, .ntp (some now))], .ntp (some now))
+      | _ => (.ntpServer, .f, [], p)) ∧
+    ((Data.ntpClient t srv).receive true now p =
+      match p with
+      | .ntp (some r) => (.ntpClient (some r) srv, .t, [], p)
+      | _ => (.ntpClient t srv, .f, [], p)) := by
+  constructor <;> cases p <;> simp [Data.receive] <;> (rename_i r; cases r <;> simp [Data.receive])
+
+/-! ### two nodes: the transport keeps the running-guard, and a lookup / a time request end to end -/
+
+theorem get_set_same (w : World) (side : Side) (nn : NetNode) : (w.set side nn).get side = nn := by
+  cases side <;> rfl
+
+theorem get_set_other (w : World) (side : Side) (nn : NetNode) : (w.set side nn).get side.other = w.get side.other := by
+  cases side <;> rfl
+
+/-- what `World.run` may change: nothing of either node's lifecycle / registries, no data of an object that may not act -/
+def Frame (w w' : World) : Prop :=
+  (∀ side, (w'.get side).n = (w.get side).n ∧ (w'.get side).addr = (w.get side).addr ∧ (w'.get side).now = (w.get side).now) ∧
+  (∀ side v, (w.get side).n.handles v = false → dget v (w'.get side).data = dget v (w.get side).data) ∧
+  (∃ extra, w'.log = w.log ++ extra ∧ ∀ e ∈ extra, e.2.handled = (w.get e.1).n.handles e.2.uid ∧
+      (e.2.handled = false → e.2.ret = none ∨ e.2.ret = some .f))
+
+theorem Frame.refl (w : World) : Frame w w :=
+  ⟨fun _ => ⟨rfl, rfl, rfl⟩, fun _ _ _ => rfl, [], by simp, by simp⟩
+
+theorem Frame.trans {w1 w2 w3 : World} (h12 : Frame w1 w2) (h23 : Frame w2 w3) : Frame w1 w3 := by
+  obtain ⟨a1, b1, e1, c1, d1⟩ := h12
+  obtain ⟨a2, b2, e2, c2, d2⟩ := h23
+  refine ⟨fun side => ⟨(a2 side).1.trans (a1 side).1, (a2 side).2.1.trans (a1 side).2.1, (a2 side).2.2.trans (a1 side).2.2⟩,
+    fun side v hv => ?_, e1 ++ e2, by rw [c2, c1, List.append_assoc], ?_⟩
+  · rw [b2 side v (by rw [(a1 side).1]; exact hv), b1 side v hv]
+  · intro e he
+    rcases List.mem_append.mp he with he | he
+    · exact d1 e he
+    · have := d2 e he
+      rw [(a1 e.1).1] at this
+      exact this
+
+/-- **The transport keeps the running-guard**: whatever is in flight and however long the exchange (any fuel, any stack of
+pending frames and `receive` calls), no node's lifecycle or registries change, no object that may not act has its data
+changed, and every `receive` call made is recorded with `handled` = "node ON and RUNNING". -/
+theorem C13_world_run_frame (f : Nat) (w : World) (items : List World.Item) : Frame w (World.run f w items) := by
+  induction f generalizing w items with
+  | zero =>
+    cases items with
+    | nil => simp only [World.run]; exact Frame.refl w
+    | cons i rest =>
+      simp only [World.run]
+      exact ⟨fun side => by cases side <;> exact ⟨rfl, rfl, rfl⟩, fun side v _ => by cases side <;> rfl, [], by simp, by simp⟩
+  | succ f ih =>
+    cases items with
+    | nil => simp only [World.run]; exact Frame.refl w
+    | cons i rest =>
+      cases i with
+      | tx side s =>
+        simp only [World.run]
+        split <;> exact ih _ _
+      | rx side calls port proto p =>
+        cases calls with
+        | nil => simp only [World.run]; exact ih _ _
+        | cons c us =>
+          obtain ⟨u, copy⟩ := c
+          simp only [World.run]
+          refine Frame.trans ?_ (ih _ _)
+          obtain ⟨h1, h2, h3, h4, h5, h6, h7, _⟩ := recvAt_spec (w.get side) u port proto p
+          refine ⟨fun sd => ?_, fun sd v hv => ?_, [(side, ((w.get side).recvAt u port proto p).2.1)], rfl, ?_⟩
+          · cases side <;> cases sd <;> first | exact ⟨h1, h3, h2⟩ | exact ⟨rfl, rfl, rfl⟩
+          · cases side <;> cases sd <;> first
+              | (by_cases hvu : v = u
+                 · subst hvu; exact (h7 hv).1
+                 · exact h6 v hvu)
+              | rfl
+          · intro e he
+            simp only [List.mem_singleton] at he
+            subst he
+            show (((w.get side).recvAt u port proto p).2.1.handled =
+                (w.get side).n.handles ((w.get side).recvAt u port proto p).2.1.uid) ∧ _
+            rw [h4]
+            exact ⟨h5, fun hh => (h7 (h5 ▸ hh)).2.2.2⟩
+
+/-- hence for every way of starting an exchange (a send, a DNS query, an NTP request, an injected frame) -/
+theorem C13_world_only_running (w : World) (side : Side) (u ip port proto : Nat) (p : Payload) (name : String) (h : Hdr)
+    (viaHost : Bool) :
+    Frame w (w.send side u ip port proto p) ∧ Frame w (w.dnsQuery side u name).1 ∧ Frame w (w.ntpRequest side u) ∧
+    Frame w (w.inject side viaHost h p).1 := by
+  refine ⟨C13_world_run_frame _ _ _, ?_, ?_, ?_⟩
+  · unfold World.dnsQuery
+    split
+    · exact Frame.refl w
+    · exact Frame.refl w
+    · exact C13_world_run_frame _ _ _
+  · unfold World.ntpRequest
+    split
+    · exact C13_world_run_frame _ _ _
+    · exact Frame.refl w
+  · unfold World.inject
+    split
+    · exact Frame.refl w
+    · split
+      · exact Frame.refl w
+      · exact C13_world_run_frame _ _ _
+
 end Primaite.C13
